@@ -20,6 +20,7 @@ import (
 	"fmt"
 	"hash/crc32"
 	"runtime"
+	"runtime/debug"
 	"sort"
 	"strconv"
 	"strings"
@@ -101,7 +102,7 @@ func c08NewS3(src map[string][]byte, f c08Fault) *c08S3 {
 	for k, v := range src {
 		m[k] = v
 	}
-	return &c08S3{obj: m, fault: f, failedDel: map[string]bool{}}
+	return &c08S3{obj: m, fault: f, failedDel: map[string]bool{}, trace: make([]string, 0, 32)}
 }
 
 func (s *c08S3) hit(op, key string) bool {
@@ -973,6 +974,7 @@ func TestVerifC08(t *testing.T) {
 	rep.SetInfo("faults", fmt.Sprintf("every single failing copy call (List/GetRange/Get/GetIndex/PutSegment/PutIndex; puts also error-after-write) x every subset of <=%d failing clean-up deletes", b.MaxDelFail))
 	rep.SetInfo("secondary", "index interval {1,2,100}, start offset {0,5}, filter {none,{0},{1}}")
 
+	defer debug.SetGCPercent(debug.SetGCPercent(800)) // allocation-heavy, tiny live heap
 	deadline := vh.Deadline()
 	shard, nshards := vh.Shard()
 	type job struct {
